@@ -906,6 +906,13 @@ def model_specs(tier):
                                                                        output_initialization=[0.0, 1.0])))
   specs.append(dict(kind='ensemble', features=[A, Bd, N], model=dict(lattices='rtl_layer', num_lattices=2, lattice_rank=2, random_seed=1,
                                                                        output_min=0.0, output_max=1.0, output_initialization=[0.0, 1.0])))
+  # one-sided output bounds (each builder decides "bounded" on its own)
+  specs.append(dict(kind='ensemble', features=[A, Bd, Cc], model=dict(lattices=[['a', 'b'], ['b', 'c']], use_linear_combination=True,
+                                                                        use_bias=False, output_min=-1.0, output_initialization=[-1.0, 1.0])))
+  specs.append(dict(kind='ensemble', features=[A, Bd], model=dict(lattices=[['a', 'b'], ['b', 'a']], use_linear_combination=True,
+                                                                    use_bias=False, output_max=2.0, output_initialization=[0.0, 2.0])))
+  specs.append(dict(kind='linear', features=[A, Cc], model=dict(use_bias=False, output_min=-1.0, output_initialization=[-1.0, 1.0])))
+  specs.append(dict(kind='lattice', features=[A, Bd], model=dict(output_max=2.0, output_initialization=[0.0, 2.0])))
   if tier == 'thorough':
     specs.append(dict(kind='ensemble', features=[A, Bd, N, NUM('m', 'increasing')],
                       model=dict(lattices='rtl_layer', num_lattices=3, lattice_rank=2, random_seed=4, separate_calibrators=True,
